@@ -385,12 +385,25 @@ def c03(res, rng, tier):
     # the round-trip theorem (Proofs/RoundTrip.v: encode_decode) predicts norm c v for every value
     # in its fragment; the prediction itself is checked against the implementation here
     pred = C.modelrun(["norm " + l.split(" ", 4)[1] + " " + l.split(" ", 4)[2] + " " + l.split(" ", 4)[4] for l in lines], env=LAST_ENV["C03"])
+    # the same with maps / Dicts / structs inside (RoundTripMaps.v: encode_decode_maps, NormMaps.norm2)
+    pred2 = {pd: C.modelrun(["norm2 " + l.split(" ", 4)[1] + " " + pd + " " + l.split(" ", 4)[2] + " " + l.split(" ", 4)[4] for l in lines], env=LAST_ENV["C03"])
+             for pd in "01"}
     in_fragment = 0
+    in_fragment2 = 0
     nontriv = 0
     for j, do in enumerate(dimpl):
         i, pd = dmeta[j]
         v, can, p, su = meta[i]
         ps = parts(do)
+        p2 = pred2[pd][i]
+        if p2 != "NA" and p2 != "ok TOOBIG":
+            in_fragment2 += 1
+            got2 = ps[0] if ps else ""
+            if got2 != p2 and not (got2.startswith("ok ") and nan_class(got2[3:], p) == nan_class(p2[3:], p)):
+                res.violation("theorem encode_decode_maps predicts %s, the implementation's Decode(Encode(v)) gives %s (protocol %d StrictUnicode=%s PyDict=%s)"
+                              % (p2[:200], got2[:200], p, su, pd),
+                              {"kind": "correspondence", "theorem": "RoundTripMaps.encode_decode_maps / NormMaps.norm2", "case": lines[i][:800],
+                               "pickle_hex": dlines[j].split()[-1][:2000], "predicted": p2[:600], "impl": do[:600]})
         if pred[i] != "NA":
             in_fragment += 1
             if ps[0] != pred[i]:
@@ -428,6 +441,6 @@ def c03(res, rng, tier):
         "rule": "canonical values (None, bool, int64, *big.Int, float64 incl. NaN/-0/Inf/denormals, string, ByteString, Bytes, []byte, []any, Tuple, map incl. NaN/-0/big keys, Dict incl. tuple keys, Class, Call, Ref; gate matrix + random trees to depth 4) and non-canonical relatives (narrow/unsigned ints, float32, typed slices, arrays, structs, zoo types, pointers, nil) x protocols 0..5 x StrictUnicode x PyDict; expected value = the documented normal form computed independently in Python; NaNs are one class at protocol 0; non-trivial = successful round trips compared",
         "programs": len(lines) + len(dlines), "disagreements_checked": len(lines) + len(dlines),
         "canonical_values": len(canon_vals), "non_canonical_values": len(vals) - len(canon_vals),
-        "round_trips_inside_theorem_fragment": in_fragment, "round_trips_total": len(dlines),
+        "round_trips_inside_theorem_fragment": in_fragment, "round_trips_inside_maps_theorem_fragment": in_fragment2, "round_trips_total": len(dlines),
         "value_kinds": kinds_hist([v for v, _ in vals])})
     res.samples = [{"case": lines[i][:160], "impl": impl[i][:120]} for i in range(0, len(lines), max(1, len(lines) // 6))]
